@@ -99,7 +99,17 @@ func TestVerifC20Pool(t *testing.T) {
 	backlog := execpool.MakeBacklog(nil, 0, execpool.LowPriority, nil)
 	defer backlog.Shutdown()
 	ctx := context.Background()
-	pvs := []protocol.ConsensusVersion{protocol.ConsensusCurrentVersion, protocol.ConsensusFuture, protocol.ConsensusV39}
+	// FULL blocks out of the real pool: protocols whose MaxTxnBytesPerBlock holds about ten payments,
+	// so that recomputeBlockEvaluator runs into ErrNoSpace and generates the block right there
+	smallFuture := protocol.ConsensusVersion("verif-c20-small-future")
+	smallCurrent := protocol.ConsensusVersion("verif-c20-small-current")
+	for name, from := range map[protocol.ConsensusVersion]protocol.ConsensusVersion{smallFuture: protocol.ConsensusFuture, smallCurrent: protocol.ConsensusCurrentVersion} {
+		sp := config.Consensus[from]
+		sp.MaxTxnBytesPerBlock = 2400
+		sp.ApprovedUpgrades = map[protocol.ConsensusVersion]uint64{}
+		config.Consensus[name] = sp
+	}
+	pvs := []protocol.ConsensusVersion{smallFuture, protocol.ConsensusCurrentVersion, smallCurrent, protocol.ConsensusFuture, protocol.ConsensusV39}
 	for u := 0; u < universes; u++ {
 		r := vNewRand(uint64(2500 + u))
 		pv := pvs[u%len(pvs)]
@@ -152,6 +162,12 @@ func TestVerifC20Pool(t *testing.T) {
 			tFeed := time.Now()
 			nrem, nrej := 0, 0
 			ng := 4 + r.Intn(10)
+			if proto.MaxTxnBytesPerBlock < 100000 {
+				ng += 8 // more than one small block's worth
+			}
+			if behind > 0 {
+				ng = 0 // Remember waits a second for OnNewBlock while the pool is behind the ledger
+			}
 			for g := 0; g < ng; g++ {
 				n := 1
 				if r.Intn(4) == 0 {
@@ -219,8 +235,8 @@ func TestVerifC20Pool(t *testing.T) {
 			if err != nil || ub == nil {
 				t.Logf("universe %d round %d: AssembleBlock: %v", u, rnd, err)
 				stats["assemble_error"]++
-				out.Case(vSym("c20"), 0, vL(), vL(), uint64(rnd), 0, vL(), vL(), 0, 0, vL(vSym("codes")), vL(vSym("gen"), 0), vL(vSym("fin")),
-					vL(vSym("val"), 0, vL()), vL(vSym("digests")), vL(vSym("errs")), vL(vSym("red")), vL(vSym("mut")), vL(vSym("info"), nrem, nrej))
+				out.Case(vSym("c20"), 0, vL(), vL(), uint64(rnd), 0, vL(), vL(), 0, 0, 0, 0, vL(vSym("codes")), vL(vSym("gen"), 0), vL(vSym("fin")),
+					vL(vSym("val"), 0, vL()), vL(vSym("digests")), vL(vSym("errs")), vL(vSym("red")), vL(vSym("mut")), vL(vSym("info"), nrem, nrej), vL(vSym("pschk")))
 				break
 			}
 			stats["blocks_"+mode]++
@@ -229,6 +245,29 @@ func TestVerifC20Pool(t *testing.T) {
 			proposer := addrs[r.Intn(6)]
 			blk := ub.FinishBlock(seed, proposer, r.Intn(3) != 0)
 			stats["txns_in_blocks"] += len(blk.Payset)
+			// the generated header against the generated payset alone
+			prevHdr, herr := l1.BlockHdr(rnd - 1)
+			require.NoError(t, herr)
+			ublk := ub.UnfinishedBlock()
+			psBytes, feeSum := 0, uint64(0)
+			for _, sib := range ublk.Payset {
+				psBytes += sib.GetEncodedLength()
+				if sib.Txn.Sender != sink {
+					feeSum += sib.Txn.Fee.Raw
+				}
+			}
+			b2i := func(b bool) int {
+				if b {
+					return 1
+				}
+				return 0
+			}
+			pschk := vL(vSym("pschk"), b2i(proto.LoadTracking), proto.MaxTxnBytesPerBlock, psBytes, uint64(ublk.Load),
+				b2i(proto.TxnCounter), prevHdr.TxnCounter, len(ublk.Payset), ublk.TxnCounter,
+				b2i(proto.Payouts.Enabled), feeSum, ublk.FeesCollected.Raw)
+			if psBytes+400 > proto.MaxTxnBytesPerBlock {
+				stats["blocks_full"]++
+			}
 
 			// ---- validation elsewhere (cold cache, real signatures), on the pool's ledger, without validation
 			tVal := time.Now()
@@ -316,10 +355,10 @@ func TestVerifC20Pool(t *testing.T) {
 			if valOK {
 				v = 1
 			}
-			out.Case(vSym("c20"), 0, vL(), vL(), uint64(rnd), blk.Bonus.Raw, vL(), vL(), 0, 0, vL(vSym("codes")),
+			out.Case(vSym("c20"), 0, vL(), vL(), uint64(rnd), blk.Bonus.Raw, vL(), vL(), 0, 0, 0, 0, vL(vSym("codes")),
 				vL(vSym("gen"), 1, vL(), vL(), vL()), vL(vSym("fin"), 0, blk.ProposerPayout().Raw), vL(vSym("val"), v, vL()),
 				append([]interface{}{vSym("digests")}, digests...), append([]interface{}{vSym("errs")}, errs...),
-				vL(vSym("red")), append([]interface{}{vSym("mut")}, mut...), vL(vSym("info"), len(blk.Payset), nrej))
+				vL(vSym("red")), append([]interface{}{vSym("mut")}, mut...), vL(vSym("info"), len(blk.Payset), nrej), pschk)
 			if !valOK {
 				break
 			}
